@@ -70,6 +70,8 @@ AnnMenu == <<
      Ann(<<Rule("enum", RList(<< RNum("12"), RStr("x"), RNull >>))>>, 3),
      Ann(<<Rule("max", RNum(Big))>>, 0),
      Ann(<<Rule("type", RStr("integer")), Rule("const", RBool("true"))>>, 0),
+     \* an `or` element that is an enum with its list
+     Ann(<<Rule("or", RList(<< RSet(<<Rule("type", RStr("enum")), Rule("enum", RList(<< RNum("12"), RStr("x") >>))>>), RStr("string") >>))>>, 0),
      \* numbers in rules are reported as written, whatever their spelling
      Ann(<<Rule("min", RNum("2.0")), Rule("max", RNum("12.00"))>>, 0),
      Ann(<<Rule("min", RNum("-0")), Rule("max", RNum("12.000"))>>, 0),
